@@ -397,18 +397,16 @@ def shapes(tier):
 
 
 def lattice_point(tier, pair, hi, di):
-    """quick: the diagonal of the 3 x 3 hyper x data lattice; thorough: the full lattice for
-    the one-dimensional pairs, diagonal + anti-diagonal for the two-dimensional families"""
-    if tier == "quick":
+    """quick: the diagonal of the 3 x 3 hyper x data lattice; thorough: diagonal +
+    anti-diagonal for the one-dimensional pairs, the diagonal for the two-dimensional families"""
+    if tier == "quick" or pair in TWO_D:
         return hi == di
-    return pair not in TWO_D or hi == di or hi + di == 2
+    return hi == di or hi + di == 2
 
 
 def api_point(tier, hi, di):
-    """lattice points at which the anonymous Python-API construction route is explored too"""
-    if tier == "quick":
-        return hi == di == 0
-    return hi == di
+    """lattice point at which the anonymous Python-API construction route is explored too"""
+    return hi == di == 0
 
 
 def menu_size(nslots, tier):
@@ -970,8 +968,8 @@ def run(run):
         "mean; beta draws {0.2, 0.9, 0.5}); the identity holds for every point of the support, so "
         "the menu values need not be quantiles; menu size 3 while menu^slots <= 81 (243 thorough), "
         "else 2 while <= 64 (512), larger shapes are not explored; the quick tier visits the diagonal "
-        "of the hyper x data lattice, the thorough tier the full lattice (diagonal + anti-diagonal for "
-        "the two-dimensional families)",
+        "of the 3 x 3 hyper x data lattice, the thorough tier diagonal + anti-diagonal (diagonal for the "
+        "two-dimensional families); the anonymous Python-API route is explored at the first lattice point",
         "objectives are invoked as Optimizer._run does (variational parameters fire, then call); a "
         "bare repeated call without any change event returns the cached value by the CallableModel "
         "contract and is not part of the claim",
